@@ -1420,6 +1420,13 @@ func genRisc(repo, out string) {
 		sb.WriteString("\n")
 		byName[g.name] = g
 	}
+	{
+		var ns []string
+		for _, g := range gs {
+			ns = append(ns, g.name)
+		}
+		fmt.Fprintf(&sb, "#[global] Hint Unfold %s : opcodes.\n\n", strings.Join(ns, " "))
+	}
 	// sum type and dispatchers
 	sb.WriteString("Inductive instr : Type :=\n")
 	for _, sn := range order {
